@@ -104,6 +104,19 @@ def compare(ctx, cfg, pg, dim_max):
                     bad = True; break
             if bad:
                 break
+        if bad:
+            continue
+        # the same observables read AGAIN from the same object, after everything else (corr, get_cov, get_corr) has been
+        # read: the values the user sees must not depend on what was looked at before
+        for name in ('cov', 'var', 'mean', 'corr'):
+            with C.LogCapture():
+                again = np.array(getattr(dist, name).data, dtype=float)
+            if again.shape != r[name].shape or not np.allclose(again, r[name], rtol=1e-12, atol=1e-300, equal_nan=True):
+                ctx.violation(f'reread:{name}:{kind}', cfg=cfg, kind=kind, expected=r[name].tolist(), observed=again.tolist(),
+                              note='expected = first reading (agreed with the model); observed = second reading of the same '
+                                   'attribute on the same object after corr / get_cov / get_corr were read')
+                break
+        ctx.count('reread')
 
 
 def one(ctx, i):
